@@ -232,6 +232,28 @@ func foldRaceLogs(c *h.Ctx, dir string, anchors []string) {
 					}
 				}
 			}
+			if len(tops) == 0 {
+				// both accesses are inside library code (e.g. a bytes.Buffer handed to os/exec): attribute by
+				// the taskctl frame that created the racing goroutines
+				for _, sec := range strings.Split(blk, "\n\n") {
+					if !strings.Contains(sec, "created at:") {
+						continue
+					}
+					lines := strings.Split(strings.TrimSpace(sec), "\n")
+					for i := 1; i+1 < len(lines); i += 2 {
+						fn := strings.TrimSpace(lines[i])
+						m := raceFrame.FindStringSubmatch(lines[i+1])
+						if m != nil && (strings.Contains(m[1], "/repo/") || strings.Contains(fn, "taskctl/")) {
+							tops = append(tops, strings.TrimPrefix(m[1], "/repo/"))
+							if j := strings.LastIndex(fn, "("); j > 0 {
+								fn = fn[:j]
+							}
+							funcs = append(funcs, "created-in:"+strings.TrimPrefix(fn, "github.com/taskctl/taskctl/"))
+							break
+						}
+					}
+				}
+			}
 			sort.Strings(funcs)
 			sig := "data-race/" + strings.Join(funcs, "|")
 			attributed := false
